@@ -1,5 +1,8 @@
 use parking_lot::{Condvar, Mutex};
 
+#[cfg(may_verif)]
+use crate::verif::atomic::{AtomicBool, Ordering};
+#[cfg(not(may_verif))]
 use std::sync::atomic::{AtomicBool, Ordering};
 use std::sync::Arc;
 use std::time::Duration;
@@ -22,6 +25,14 @@ impl ThreadPark {
     }
 
     pub fn park_timeout(&self, dur: Option<Duration>) -> Result<(), ParkError> {
+        #[cfg(may_verif)]
+        if let Some(h) = crate::verif::hooks() {
+            let dl = dur.map(|d| h.now_ns().saturating_add(d.as_nanos().min(u64::MAX as u128) as u64));
+            crate::verif::event("tpark.enter", self as *const _ as u64, 0);
+            let woken = h.block(self as *const _ as usize, dl);
+            crate::verif::event("tpark.leave", self as *const _ as u64, woken as u64);
+            return if woken { Ok(()) } else { Err(ParkError::Timeout) };
+        }
         let mut result = Ok(());
         let mut guard = self.lock.lock();
         while *guard == 0 && result.is_ok() {
@@ -41,6 +52,11 @@ impl ThreadPark {
     }
 
     pub fn unpark(&self) {
+        #[cfg(may_verif)]
+        if let Some(h) = crate::verif::hooks() {
+            crate::verif::event("tpark.unpark", self as *const _ as u64, 0);
+            return h.wake(self as *const _ as usize);
+        }
         let mut guard = self.lock.lock();
         if *guard == 0 {
             *guard = 1;
